@@ -227,6 +227,8 @@ def methods(kind):
         M["calc_fext"] = (lambda o, x, a: o.calc_fext(silent=True), ())
         M["get_k0_conn"] = (lambda o, x, a: o.get_k0_conn(), ())
         M["get_k0_conn_arg"] = (lambda o, x, a: o.get_k0_conn(conn=x.conn2), ())
+        # reference prelude only (not a method of the specification): laminates of the panels with their offsets
+        M["_panels_k0"] = (lambda o, x, a: [p.calc_k0(silent=True) for p in o.panels][-1], ())
         M["uvw"] = (lambda o, x, a: o.uvw(a["c"], "skin", gridx=5, gridy=4), ("c",))
         M["strain"] = (lambda o, x, a: o.strain(a["c"], "skin", gridx=5, gridy=4), ("c",))
         M["stress"] = (lambda o, x, a: o.stress(a["c"], "skin", gridx=5, gridy=4), ("c",))
@@ -494,3 +496,850 @@ class Lab:
         except Exception:
             pass
         return res
+
+
+# ---------------------------------------------------------------------------- worker side
+
+def _emit(f, rec):
+    f.write(json.dumps(rec) + "\n")
+    f.flush()
+    os.fsync(f.fileno())
+
+
+def _mutate(name):
+    """development-time self-test only (never used by run()): simulated breakages, applied by
+    monkeypatching inside the worker process; /repo is not touched"""
+    if not name:
+        return
+    np = _np()
+    from compmech.panel import Panel
+    from compmech.panel.assembly import PanelAssembly
+    if name == "mutate_c":                      # a method that scales its input array in place
+        orig = Panel.calc_fint
+
+        def calc_fint(self, c, *a, **k):
+            c *= 1.0000001
+            return orig(self, c, *a, **k)
+        Panel.calc_fint = calc_fint
+    elif name == "hidden_state":                # calc_k0 depends on whether calc_kM was called before
+        orig_kM, orig_k0 = Panel.calc_kM, Panel.calc_k0
+
+        def calc_kM(self, *a, **k):
+            self.__dict__["_seen_kM"] = True
+            return orig_kM(self, *a, **k)
+
+        def calc_k0(self, *a, **k):
+            r = orig_k0(self, *a, **k)
+            if self.__dict__.get("_seen_kM"):
+                r = r * (1 + 2.0 ** -40)
+                self.k0 = r
+            return r
+        Panel.calc_kM, Panel.calc_k0 = calc_kM, calc_k0
+    elif name == "stale_conn":                  # k0_conn survives although calc_k0_c was asked with another state
+        orig = PanelAssembly.calc_kG0
+
+        def calc_kG0(self, *a, **k):
+            r = orig(self, *a, **k)
+            if self.k0_conn is not None:
+                self.k0_conn = self.k0_conn * 2.0
+            return r
+        PanelAssembly.calc_kG0 = calc_kG0
+    elif name == "pad_leak":                    # trimming forgotten: a padded point replaces the last one
+        import compmech.panel.modelDB as mdb
+        field = mdb.db["plate_clt_donnell_bardell"]["field"]
+        orig = field.fuvw
+
+        class Wrap(object):
+            def __getattr__(self, k):
+                return getattr(field, k)
+
+            def fuvw(self, c, p, xs, ys, num_cores=4):
+                out = orig(c, p, xs, ys, num_cores)
+                if xs.shape[0] % num_cores:
+                    pad = orig(c, p, np.zeros(1), np.zeros(1), 1)
+                    out = tuple(np.concatenate((o[:-1], q)) for o, q in zip(out, pad))
+                return out
+        for k in mdb.db:
+            if mdb.db[k]["field"] is field:
+                mdb.db[k]["field"] = Wrap()
+    elif name == "lb_mutates_k0":               # an analysis that leaves its scaling in the cached matrix
+        orig = Panel.lb
+
+        def lb(self, *a, **k):
+            r = orig(self, *a, **k)
+            self.Nxx = self.Nxx * 1.0000001 if self.Nxx is not None else None
+            return r
+        Panel.lb = lb
+    else:
+        raise KeyError(name)
+
+
+def worker_lifecycle(job, f):
+    kind = job["kind"]
+    refs = dict(job.get("refvals") or {})
+    for m, path in sorted(job["refs"].items()):
+        if m in refs:
+            continue
+        _emit(f, dict(t="refcall", m=m))
+        lab = Lab(kind, record=False)
+        r = None
+        for q in path:
+            r = lab.call(q)
+        refs[m] = dict(out=r["out"], h=r["h"], eig=r["eig"], etype=r["etype"], emsg=r["emsg"])
+        _emit(f, dict(t="ref", m=m, res=refs[m]))
+    for i, path in job["paths"]:
+        lab = Lab(kind, record=job.get("record", True))
+        _emit(f, dict(t="begin", i=i))
+        prev = None
+        for j, (m, rep) in enumerate(path):
+            _emit(f, dict(t="call", i=i, j=j, m=m))
+            r = lab.call(m)
+            ref = refs.get(m)
+            r["rep"] = bool(rep)
+            r["eqRef"] = bool(r["out"] == "ok" and ref is not None and ref["out"] == "ok" and r["h"] == ref["h"])
+            r["eqPrev"] = bool(rep and prev is not None and prev["out"] == r["out"] and prev["h"] == r["h"])
+            r["refeig"] = ref["eig"] if (ref is not None and ref["out"] == "ok") else None
+            _emit(f, dict(t="step", i=i, j=j, res=r))
+            prev = r
+        _emit(f, dict(t="end", i=i))
+
+
+def _field_points(np, rng_seed, S, a, b):
+    k = np.arange(S, dtype=float)
+    xs = a * ((0.37 + 0.618 * k + 0.01 * rng_seed) % 1.0)
+    ys = b * ((0.11 + 0.414 * k) % 1.0)
+    if S > 2:
+        xs[0], ys[0] = 0., 0.          # edge points
+        xs[-1], ys[-1] = a, b
+    return xs, ys
+
+
+def worker_threads(job, f):
+    """field recovery for every core count: bit-identical to one core and to point-by-point evaluation"""
+    np = _np()
+    kind = job["kind"]
+    for S in job["sizes"]:
+        lab = Lab(kind)
+        o, ctx = lab.obj, lab.ctx
+        for q in job["prelude"]:
+            lab.call(q)
+        cone = kind in ("Cyl", "Cone")
+        if cone:
+            xs, ys = _field_points(np, job["seed"] % 7, S, 500., 6.0)
+            ys = ys - 3.0
+        elif kind.startswith("Bay"):
+            xs, ys = _field_points(np, job["seed"] % 7, S, o.a, o.b)
+        else:
+            xs, ys = _field_points(np, job["seed"] % 7, S, o.a, o.b)
+
+        def ev(method, X, Y, P):
+            o.out_num_cores = P
+            c = ctx.c.copy()
+            if cone:
+                return getattr(o, method)(c, xs=X.copy(), ts=Y.copy())
+            return getattr(o, method)(c, xs=X.copy(), ys=Y.copy())
+
+        for method in job["methods"]:
+            serial = digest(ev(method, xs, ys, 1))
+            # point by point, one core: what output slot i must carry
+            single = [ev(method, xs[i:i + 1], ys[i:i + 1], 1) for i in range(S)] if S <= job["pointwise_max"] else None
+            for P in job["cores"]:
+                r = ev(method, xs, ys, P)
+                rec = dict(t="field", kind=kind, method=method, S=S, P=P, eqSerial=(digest(r) == serial),
+                           eqPointwise=True, checkedPointwise=single is not None)
+                if single is not None:
+                    vals = r if isinstance(r, (tuple, list)) else ([r[k] for k in sorted(r)] if isinstance(r, dict) else [r])
+                    for i in range(S):
+                        s1 = single[i]
+                        v1 = s1 if isinstance(s1, (tuple, list)) else ([s1[k] for k in sorted(s1)] if isinstance(s1, dict) else [s1])
+                        for A, B1 in zip(vals, v1):
+                            A = np.asarray(A)
+                            B1 = np.asarray(B1)
+                            a_i = A.reshape((S,) + A.shape[1:])[i] if A.shape[0] == S else A[i]
+                            if np.asarray(a_i).tobytes() != np.asarray(B1).reshape(np.asarray(a_i).shape).tobytes():
+                                rec["eqPointwise"] = False
+                _emit(f, rec)
+
+
+def worker_integration(job, f):
+    """shell non-linear integration for every ni_num_cores: values logged exactly, judged by TLC"""
+    np = _np()
+    from common import dyadic
+    kind = job["kind"]
+    base = {}
+    for P in job["cores"]:
+        lab = Lab(kind)
+        o, ctx = lab.obj, lab.ctx
+        lab.call("calc_k0")
+        o.ni_num_cores = P
+        c = ctx.c.copy()
+        fint = np.asarray(o.calc_fint(c.copy(), silent=True), dtype=float)
+        kT = o.calc_kT(c.copy(), silent=True)
+        rows = np.asarray(abs(kT).sum(axis=1)).ravel()
+        diag = np.asarray(kT.diagonal()).ravel()
+        for name, v in (("fint", fint), ("kT_abs_row_sums", rows), ("kT_diag", diag)):
+            if P == job["cores"][0]:
+                base[name] = v
+            _emit(f, dict(t="integ", kind=kind, what=name, P=P, n=int(v.shape[0]),
+                          obs=[dyadic(x) for x in v], ref=[dyadic(x) for x in base[name]]))
+
+
+def worker_main(jobfile):
+    job = json.load(open(jobfile))
+    import repo_env
+    repo_env.activate(job.get("build"))
+    import warnings
+    warnings.filterwarnings("ignore")
+    _mutate(job.get("mutant"))
+    with open(job["out"], "a") as f:
+        sys.stdout = open(os.devnull, "w")
+        {"lifecycle": worker_lifecycle, "threads": worker_threads, "integration": worker_integration}[job["type"]](job, f)
+        _emit(f, dict(t="done"))
+
+
+# =========================================================================================
+# Part 2: decision procedure
+# =========================================================================================
+
+KINDS = ["Plate", "CPanel", "KPanel", "Assembly", "BayPlain", "BayBeta", "BayB1", "BayB1b", "BayB2", "BayT2",
+         "Cyl", "Cone"]
+TOL = 30
+
+
+def _scratch():
+    from common import BUILD
+    d = os.path.join(BUILD, "c20", "%d-%d" % (os.getpid(), int(time.time() * 1000) % 100000000))
+    os.makedirs(d, exist_ok=True)
+    return d
+
+
+def _run_worker(job, tag, scratch, timeout=1800):
+    """run one worker process; returns (records, finished, stderr tail)"""
+    out = os.path.join(scratch, tag + ".ndjson")
+    jf = os.path.join(scratch, tag + ".job.json")
+    job = dict(job, out=out)
+    if os.path.exists(out):
+        os.remove(out)
+    with open(jf, "w") as f:
+        json.dump(job, f)
+    env = dict(os.environ)
+    env.setdefault("OMP_NUM_THREADS", "1")
+    env["OPENBLAS_NUM_THREADS"] = "1"
+    env["MKL_NUM_THREADS"] = "1"
+    env["MPLBACKEND"] = "Agg"
+    env["PYTHONHASHSEED"] = "0"
+    p = subprocess.run([sys.executable, os.path.abspath(__file__), "--worker", jf], capture_output=True,
+                       text=True, env=env, cwd=scratch, timeout=timeout)
+    recs = []
+    if os.path.exists(out):
+        for line in open(out):
+            line = line.strip()
+            if line:
+                try:
+                    recs.append(json.loads(line))
+                except ValueError:
+                    pass
+    finished = bool(recs) and recs[-1].get("t") == "done"
+    return recs, finished, (p.stderr or "")[-1500:], p.returncode
+
+
+def replay_paths(kind, paths, refs, build, scratch, tag, mutant=None, record=True):
+    """paths: list of lists of (method, rep).  Runs them in worker processes (restarting after a crash of
+    the interpreter, which is recorded as the outcome of the call in progress).
+    -> (list of step lists per path, ref results, problems)"""
+    todo = list(enumerate(paths))
+    results = {}
+    refvals = {}
+    problems = []
+    rounds = 0
+    while todo:
+        rounds += 1
+        if rounds > 60:
+            problems.append("too many worker restarts for kind %s" % kind)
+            break
+        job = dict(type="lifecycle", kind=kind, refs=refs, refvals=refvals, paths=todo, build=build,
+                   mutant=mutant, record=record)
+        recs, finished, err, rc = _run_worker(job, "%s-r%d" % (tag, rounds), scratch)
+        cur = None
+        incall = None
+        for r in recs:
+            t = r["t"]
+            if t == "ref":
+                refvals[r["m"]] = r["res"]
+            elif t == "begin":
+                cur = r["i"]
+                results[cur] = []
+            elif t == "call":
+                incall = (r["i"], r["j"], r["m"])
+            elif t == "step":
+                results[r["i"]].append(r["res"])
+                incall = None
+            elif t == "end":
+                cur = None
+        if finished:
+            break
+        if incall is None:
+            last = recs[-1] if recs else None
+            if last is not None and last.get("t") == "refcall":
+                problems.append("worker died while computing the reference result of %s.%s (rc=%s) %s"
+                                % (kind, last["m"], rc, err[-300:]))
+            else:
+                problems.append("worker for kind %s ended without finishing (rc=%s): %s" % (kind, rc, err[-600:]))
+            break
+        i, j, m = incall
+        prev = results[i][-1] if results[i] else None
+        rep = bool(paths[i][j][1])
+        results[i].append(dict(m=m, out="exc", h="", etype="crash", emsg="worker process died", args_same=True,
+                               eig=None, reads=[], writes=[], rbw=[], rep=rep, eqRef=False,
+                               eqPrev=bool(rep and prev is not None and prev["out"] == "exc" and prev["etype"] == "crash"),
+                               refeig=None))
+        if not rep and j + 1 < len(paths[i]) and paths[i][j + 1][0] == m and paths[i][j + 1][1]:
+            # the repetition of a call that kills the interpreter is not attempted again in a new process
+            results[i].append(dict(results[i][-1], rep=True, eqPrev=True))
+        todo = [(k, p) for k, p in todo if k not in results]
+    return [results.get(i) for i in range(len(paths))], refvals, problems
+
+
+# ---------------------------------------------------------------------------- the abstract graph
+
+def _nk(ab, ck):
+    d = tuple(sorted(tuple(x) for x in ab[0]))
+    st = tuple(sorted(tuple(x) for x in ab[1]))
+    k = tuple(sorted((tuple(a), v) for a, v in ck.items())) if isinstance(ck, dict) else ()
+    return (d, st, k)
+
+
+class Graph:
+    """per kind: nodes = abstract states (derived, ckey) reached by TLC, edges labelled by methods"""
+
+    def __init__(self, kind, methods, universe, touches, init):
+        self.kind = kind
+        self.methods = sorted(methods)
+        self.universe = {tuple(a) for a in universe}
+        self.touches = touches
+        self.init = init
+        self.edges = {}          # (node, m) -> (dst, out, attr, explains)
+
+    def shortest(self):
+        sp = {self.init: []}
+        queue = [self.init]
+        while queue:
+            u = queue.pop(0)
+            for m in self.methods:
+                e = self.edges.get((u, m))
+                if e is not None and e[0] not in sp:
+                    sp[e[0]] = sp[u] + [m]
+                    queue.append(e[0])
+        return sp
+
+    def walk(self, path):
+        u = self.init
+        nodes = [u]
+        for m in path:
+            e = self.edges.get((u, m))
+            if e is None:
+                return None
+            u = e[0]
+            nodes.append(u)
+        return nodes
+
+
+def parse_graphs(out):
+    from common import printed_values
+    graphs = {}
+    for v in printed_values(out, "KIND"):
+        _, kind, methods, universe, touches, ab, ck = v
+        graphs[kind] = Graph(kind, list(methods), list(universe), touches, _nk(ab, ck))
+    for v in printed_values(out, "EDGE"):
+        _, kind, ab, ck, m, o, attr, ab2, ck2, expl = v
+        graphs[kind].edges[(_nk(ab, ck), m)] = (_nk(ab2, ck2), o, tuple(attr), sorted(expl))
+    return graphs
+
+
+def choose_paths(g, maxlen, budget, rng):
+    """edge cover (every (state, method) pair TLC explored below the depth bound ends one path) plus
+    representatives of distinct state trajectories, up to `budget` paths; -> (paths, stats)"""
+    sp = g.shortest()
+    paths, seen = [], set()
+
+    def add(p):
+        t = tuple(p)
+        if t not in seen and len(p) <= maxlen:
+            seen.add(t)
+            paths.append(list(p))
+
+    for u in sorted(sp, key=lambda x: (len(sp[x]), sp[x])):
+        for m in g.methods:
+            if (u, m) in g.edges:
+                add(sp[u] + [m])
+    n_cover = len(paths)
+    # distinct trajectories of abstract states (self-loops carry no new state and are covered above)
+    trajs = []
+
+    def dfs(u, nodes, labels):
+        if len(nodes) - 1 >= 1:
+            trajs.append((tuple(nodes), list(labels)))
+        if len(nodes) - 1 >= maxlen:
+            return
+        succ = {}
+        for m in g.methods:
+            e = g.edges.get((u, m))
+            if e is not None and e[0] != u:
+                succ.setdefault(e[0], []).append(m)
+        for v in sorted(succ):
+            dfs(v, nodes + [v], labels + [succ[v]])
+
+    dfs(g.init, [g.init], [])
+    rng.shuffle(trajs)
+    n_traj = len(trajs)
+    used = 0
+    for nodes, labels in trajs:
+        if len(paths) >= budget:
+            break
+        p = [rng.choice(ms) for ms in labels]
+        # pad with a state-preserving call so that the last state of the trajectory is also exercised
+        before = len(paths)
+        add(p)
+        used += len(paths) - before
+    covered_edges = set()
+    for p in paths:
+        nodes = g.walk(p)
+        for u, m in zip(nodes, p):
+            covered_edges.add((u, m))
+    stats = dict(kind=g.kind, states=len(sp), edges=len(g.edges), edges_on_replayed_paths=len(covered_edges),
+                 cover_paths=n_cover, distinct_state_trajectories=n_traj, trajectory_paths=used,
+                 paths=len(paths))
+    return paths, stats
+
+
+def ref_paths(g):
+    """for every method the shortest call sequence after which the specification says the call
+    succeeds with the definition-determined result: the reference ("fresh object") computation"""
+    sp = g.shortest()
+    refs = {}
+    for m in g.methods:
+        best = None
+        for u, path in sp.items():
+            e = g.edges.get((u, m))
+            if e is not None and e[1] == "ok":
+                if best is None or (len(path), path) < (len(best), best):
+                    best = path
+        if best is not None:
+            refs[m] = best + [m]
+    return refs
+
+
+# ---------------------------------------------------------------------------- events
+
+def _dy(v):
+    from common import dyadic
+    out = []
+    for re_, im_ in v:
+        out.append([dyadic(re_), dyadic(im_)])
+    return out
+
+
+def _finite(v):
+    import math
+    return v is not None and all(math.isfinite(a) and math.isfinite(b) for a, b in v)
+
+
+def make_event(eid, kind, mode, steps, keep):
+    """steps: worker results; keep: attribute pairs that count for the drift check"""
+    ev = dict(id=eid, kind=kind, mode=mode, steps=[])
+    for r in steps:
+        eig = r.get("eig")
+        refeig = r.get("refeig")
+        use = _finite(eig) and _finite(refeig) and r["out"] == "ok"
+        ev["steps"].append(dict(
+            m=r["m"], rep=bool(r["rep"]), out=r["out"], etype=r["etype"], emsg=r["emsg"],
+            eqRef=bool(r["eqRef"]), eqPrev=bool(r["eqPrev"]), argsSame=bool(r["args_same"]),
+            rbw=[list(a) for a in r["rbw"] if tuple(a) in keep],
+            writes=[list(a) for a in r["writes"]],
+            eig=_dy(eig) if use else [], refeig=_dy(refeig) if use else []))
+    return ev
+
+
+REF_OVERRIDE = {("Assembly", "get_k0_conn_arg"): ["_panels_k0", "get_k0_conn_arg"]}
+
+
+def random_walks(g, maxlen, count, rng):
+    out = []
+    for _ in range(count):
+        n = rng.randint(2, maxlen)
+        out.append([rng.choice(g.methods) for _ in range(n)])
+    return out
+
+
+def doubled(path):
+    d = []
+    for m in path:
+        d.append((m, False))
+        d.append((m, True))
+    return d
+
+
+def _chunks(lst, k):
+    k = max(1, min(k, len(lst)))
+    return [lst[i::k] for i in range(k)]
+
+
+def replay_kind(kind, g, paths, build, scratch, nproc, mutant=None, record=True):
+    """-> (list of (path, steps)), refvals, problems"""
+    import concurrent.futures as cf
+    refs = ref_paths(g)
+    for (k, m), p in REF_OVERRIDE.items():
+        if k == kind and m in g.methods:
+            refs[m] = p
+    parts = _chunks(list(paths), nproc)
+
+    def one(i):
+        return replay_paths(kind, [doubled(p) for p in parts[i]], refs, build, scratch,
+                            "%s-%d" % (kind, i), mutant=mutant, record=record)
+
+    out, problems, refvals = [], [], {}
+    with cf.ThreadPoolExecutor(max_workers=len(parts)) as ex:
+        for i, (res, rv, pr) in enumerate(ex.map(one, range(len(parts)))):
+            problems += pr
+            refvals.update(rv)
+            for p, steps in zip(parts[i], res):
+                if steps is None:
+                    problems.append("path %s of kind %s was not replayed" % (p, kind))
+                else:
+                    out.append((p, steps))
+    return out, refvals, problems
+
+
+def tlc_cfg(kinds, maxlen, devs="all", invariants=True):
+    cfg = "SPECIFICATION EmitSpec\nCONSTANTS Kinds = {%s}\nMaxLen = %d\n" % (
+        ", ".join('"%s"' % k for k in kinds), maxlen)
+    cfg += "Deviations <- AllDeviations\n" if devs == "all" else "Deviations = {%s}\n" % ", ".join('"%s"' % d for d in devs)
+    if invariants:
+        cfg += ("INVARIANT TypeOK\nINVARIANT NoFailure\nINVARIANT HistoryIndependent\nINVARIANT CacheCoherent\n"
+                "INVARIANT Idempotent\n")
+    return cfg + "CHECK_DEADLOCK FALSE\n"
+
+
+def judge(rep, tag, events, info, mode):
+    """trace validation by TLC; returns {event id: (verdict, detail)}"""
+    from common import validate_trace
+    cfg = "CONSTANTS Kinds <- AllKinds\nMaxLen = 0\nDeviations <- AllDeviations\nTol = %d\n" % TOL
+    verdicts, results, problems = validate_trace(tag, "Trace_Lifecycle", cfg, events, timeout=3000)
+    for res in results:
+        rep.add_tlc("Trace_Lifecycle(%s)" % mode, res)
+    for p in problems:
+        rep.machinery(p)
+    return verdicts
+
+
+def report_verdicts(rep, verdicts, events, info, drift_kinds):
+    """info: event id -> (kind, path).  Violations / known findings from per-step judgements."""
+    for ev in events:
+        v = verdicts.get(ev["id"])
+        if v is None:
+            continue
+        kind, path = info[ev["id"]]
+        verdict, detail = v
+        if verdict == "drift":
+            what = [(d.get("m"), d.get("drift")) for d in detail if d.get("drift")]
+            drift_kinds.setdefault(kind, []).append(dict(path=path, drift=what[:3]))
+            continue
+        for pos, d in enumerate(detail):
+            st = ev["steps"][pos]
+            if d["v"] == "kf":
+                for dev in d["devs"]:
+                    rep.known(dev, "%s: call sequence %s; %s() -> %s (specification: %s on attribute %s)" % (
+                        kind, path[:pos // 2 + 1], d["m"],
+                        ("%s: %s" % (st["etype"], st["emsg"])) if st["out"] == "exc" else "a result different from the freshly defined object",
+                        d["spec"][0], ".".join(x for x in d["spec"][1] if x)))
+            elif d["v"] == "fail":
+                rep.violation("%s after %s on kind %s: %s (observed %s; specification expects %s%s)" % (
+                    d["m"], path[:pos // 2], kind, d["why"],
+                    ("%s: %s" % (st["etype"], st["emsg"])) if st["out"] == "exc"
+                    else "ok eqFresh=%s eqRepetition=%s callerArraysUnchanged=%s" % (st["eqRef"], st["eqPrev"] or not st["rep"], st["argsSame"]),
+                    d["spec"][0], "" if d["spec"][0] == "ok" else " at " + ".".join(x for x in d["spec"][1] if x)),
+                    dict(kind=kind, path=path, position=pos // 2, repetition=bool(st["rep"]), method=d["m"],
+                         mode=ev["mode"], observed={k: st[k] for k in ("out", "etype", "emsg", "eqRef", "eqPrev", "argsSame")},
+                         specification=d["spec"], why=d["why"]))
+                break
+
+
+def run(tier, seed, build, mutant=None, kinds=None):
+    import concurrent.futures as cf
+    import random
+    import shutil
+    from common import Report, run_tlc
+    rep = Report("C20", tier, seed)
+    rng = random.Random(seed)
+    kinds = list(kinds or KINDS)
+    maxlen = 4 if tier == "quick" else 6
+    scratch = _scratch()
+    try:
+        return _run(rep, rng, tier, seed, build, mutant, kinds, maxlen, scratch)
+    finally:
+        shutil.rmtree(scratch, ignore_errors=True)
+
+
+def _run(rep, rng, tier, seed, build, mutant, kinds, maxlen, scratch):
+    import concurrent.futures as cf
+    from common import run_tlc, printed_values
+    quick = tier == "quick"
+
+    # 1. the specification: all call sequences up to the bound on every kind, with the listed deviations
+    mc = run_tlc("c20-mc", "MC_Lifecycle", tlc_cfg(kinds, maxlen), workers=1, timeout=1500, fast=False)
+    rep.add_tlc("MC_Lifecycle(MaxLen=%d, all deviations on)" % maxlen, mc)
+    if not mc.ok:
+        rep.machinery("TLC on MC_Lifecycle failed (the model of today's code is not explained by its own "
+                      "deviation tables): " + mc.errors())
+        return rep.finish()
+    graphs = parse_graphs(mc.out)
+    if sorted(graphs) != sorted(kinds):
+        rep.machinery("kinds reported by TLC %s differ from the requested %s" % (sorted(graphs), sorted(kinds)))
+        return rep.finish()
+    # the literal property (no deviation) on the same model: its counterexample is the first finding
+    lit = run_tlc("c20-lit", "MC_Lifecycle", tlc_cfg(kinds, 1, devs=[]), workers=1, timeout=600, fast=False)
+    rep.add_tlc("MC_Lifecycle(MaxLen=1, no deviation)", lit)
+    literal_false = "Invariant NoFailure is violated" in lit.out
+    rep.cov["literal_NoFailure_holds_on_model_of_todays_code"] = not literal_false
+    if lit.ok:
+        rep.cov["literal_note"] = "specification without deviations satisfies NoFailure at depth 1"
+    elif not literal_false:
+        rep.machinery("unexpected TLC result for the literal property: " + lit.errors())
+
+    # 2. thread partition specifications
+    inv = ("INVARIANT Shapes\nINVARIANT PointIInSlotI\nINVARIANT NoPadEscapes\nINVARIANT IndependentOfP\n"
+           "INVARIANT NoRace\nCHECK_DEADLOCK FALSE\n")
+    fc = run_tlc("c20-fc", "MC_FieldChunks", "SPECIFICATION Spec\nCONSTANTS MaxS = 40\nMaxP = 16\n" + inv,
+                 workers=4, timeout=900, fast=False)
+    rep.add_tlc("MC_FieldChunks(S<=40,P<=16)", fc)
+    if not fc.ok:
+        rep.machinery("TLC on MC_FieldChunks failed: " + fc.errors())
+    ipinv = ("INVARIANT RestNonNegative\nINVARIANT EachPointOnce\nINVARIANT NothingElse\nINVARIANT SerialAfterJoin\n"
+             "CHECK_DEADLOCK FALSE\n")
+    ipruns = [("all thread orders", 60, 12 if quick else 16, "")]
+    if quick:
+        ipruns.append(("threads finish in index order", 60, 16, "CONSTRAINT InOrder\n"))
+    for name, mn, mp, extra in ipruns:
+        ip = run_tlc("c20-ip", "MC_IntegratePartition",
+                     "SPECIFICATION Spec\nCONSTANTS MaxN = %d\nMaxP = %d\n%s%s" % (mn, mp, extra, ipinv),
+                     workers=8, timeout=1500, fast=False)
+        rep.add_tlc("MC_IntegratePartition(npts<=%d,P<=%d,%s)" % (mn, mp, name), ip)
+        if not ip.ok:
+            rep.machinery("TLC on MC_IntegratePartition failed: " + ip.errors())
+
+    # 3. binding A+B: replay TLC's paths on real objects, record, let Trace_Lifecycle judge
+    plan, stats = {}, []
+    for kind in kinds:
+        g = graphs[kind]
+        paths, st = choose_paths(g, maxlen, 100000, rng)
+        variants = 1 if quick else 4
+        extra = []
+        for _ in range(variants):
+            more, _ = choose_paths(g, maxlen, 100000, rng)
+            extra += more
+        walks = random_walks(g, maxlen, 30 if quick else 300, rng)
+        seen = set(map(tuple, paths))
+        for p in extra + walks:
+            if tuple(p) not in seen:
+                seen.add(tuple(p))
+                paths.append(p)
+        st["paths"] = len(paths)
+        st["random_walks"] = len(walks)
+        stats.append(st)
+        plan[kind] = paths
+    rep.cov["graph"] = stats
+    total_paths = sum(len(p) for p in plan.values())
+    nproc_total = 14
+    replays, problems = {}, []
+
+    def do_kind(kind):
+        share = max(1, int(round(nproc_total * len(plan[kind]) / float(max(1, total_paths)))))
+        return replay_kind(kind, graphs[kind], plan[kind], build, scratch, share, mutant=mutant)
+
+    with cf.ThreadPoolExecutor(max_workers=len(kinds)) as ex:
+        for kind, (res, refvals, pr) in zip(kinds, ex.map(do_kind, kinds)):
+            replays[kind] = res
+            for p in pr:
+                rep.machinery(p)
+    ever_written = {}
+    for kind in kinds:
+        w = set()
+        for _, steps in replays[kind]:
+            for s in steps:
+                w.update(tuple(a) for a in s["writes"])
+        ever_written[kind] = w
+    events, info = [], {}
+    for kind in kinds:
+        keep = graphs[kind].universe | ever_written[kind]
+        for path, steps in replays[kind]:
+            ev = make_event(len(events), kind, "abstract", steps, keep)
+            info[ev["id"]] = (kind, path)
+            events.append(ev)
+    verdicts = judge(rep, "c20-tr", events, info, "abstract")
+    drift_kinds = {}
+    report_verdicts(rep, verdicts, events, info, drift_kinds)
+    rep.cov["traces_validated_against_impl"] += len(events)
+    rep.cov["evaluations"] += sum(len(e["steps"]) for e in events)
+    for e in events:
+        kind, path = info[e["id"]]
+        nodes = graphs[kind].walk(path)
+        rep.nontrivial((kind, tuple(path)))
+    for e in events[:1] + events[len(events) // 2:len(events) // 2 + 1] + events[-1:]:
+        rep.sample(dict(kind=e["kind"], path=info[e["id"]][1], verdict=str(verdicts.get(e["id"], ("?",))[0]),
+                        steps=[{k: s[k] for k in ("m", "rep", "out", "etype", "eqRef", "eqPrev", "argsSame")}
+                               for s in e["steps"]]))
+
+    # 4. model drift: the abstraction is not trusted for that kind -> exhaustive concrete sequences
+    rep.cov["model_drift"] = {k: v[:3] for k, v in drift_kinds.items()}
+    for kind in sorted(drift_kinds):
+        print("NOTE model-drift kind=%s: recorded attribute accesses are not covered by Lifecycle.tla (%s); "
+              "falling back to exhaustive concrete call sequences of length <= 3"
+              % (kind, json.dumps(drift_kinds[kind][0])[:300]))
+        g = graphs[kind]
+        seqs = [[a] for a in g.methods] + [[a, b] for a in g.methods for b in g.methods]
+        seqs += [[a, b, c] for a in g.methods for b in g.methods for c in g.methods]
+        res, _, pr = replay_kind(kind, g, seqs, build, scratch, nproc_total, mutant=mutant, record=False)
+        for p in pr:
+            rep.machinery(p)
+        cevents, cinfo = [], {}
+        for path, steps in res:
+            ev = make_event(len(cevents), kind, "concrete", steps, set())
+            cinfo[ev["id"]] = (kind, path)
+            cevents.append(ev)
+        cverdicts = judge(rep, "c20-trc", cevents, cinfo, "concrete")
+        report_verdicts(rep, cverdicts, cevents, cinfo, {})
+        rep.cov["traces_validated_against_impl"] += len(cevents)
+        rep.cov["evaluations"] += sum(len(e["steps"]) for e in cevents)
+        rep.assumptions.append("kind %s: Lifecycle.tla does not cover the recorded attribute accesses; decided on "
+                               "%d exhaustive concrete call sequences (length <= 3) instead" % (kind, len(cevents)))
+
+    # 5. thread counts
+    thread_checks(rep, tier, seed, build, scratch, mutant, kinds)
+
+    rep.cov["rule"] = ("one replay per (abstract state, method) pair explored by TLC (edge cover of the dumped graph), "
+                       "per distinct trajectory of abstract states (all of them, %s labellings each) and seeded "
+                       "random call sequences; every call is made twice; distinct = distinct (kind, call sequence)"
+                       % ("2" if quick else "5"))
+    rep.cov["exhaustive"] = False
+    rep.assumptions += [
+        "evaluation calls only; redefinitions between calls are outside the property",
+        "methods a model does not support at all (kpanel: kA, cA, strain, non-linear kernels) are not part of Methods(kind)",
+        "'freshly defined object' reference of a call that cannot be first today = the same call after the shortest "
+        "call sequence the specification says makes it succeed",
+        "results passing through ARPACK (random start vector) are compared on eigenvalues at 2^-%d relative" % TOL,
+        "bit-identity everywhere else (OMP_NUM_THREADS=1, OPENBLAS_NUM_THREADS=1 in the replay processes)",
+        "the extension modules loaded are the ones built from the generated C sources (Cython is not installed)"]
+    return rep.finish()
+
+
+def thread_checks(rep, tier, seed, build, scratch, mutant, kinds):
+    import concurrent.futures as cf
+    from common import validate_trace
+    quick = tier == "quick"
+    sizes = [1, 7, 13, 37] if quick else [1, 2, 3, 5, 7, 11, 13, 17, 19, 23, 29, 31, 37, 41, 97]
+    cores = list(range(1, 17))
+    jobs = []
+    table = [("Plate", ["uvw", "strain", "stress"]), ("CPanel", ["uvw", "strain", "stress"]),
+             ("KPanel", ["uvw"]), ("BayPlain", ["uvw_skin"]), ("Cyl", ["uvw", "strain", "stress"])]
+    for kind, meths in table:
+        if kind not in kinds:
+            continue
+        for part in _chunks(sizes, 2):
+            jobs.append(dict(type="threads", kind=kind, sizes=part, cores=cores, methods=meths,
+                             prelude=["calc_k0"], seed=seed, pointwise_max=41, build=build, mutant=mutant))
+    if "Cyl" in kinds:
+        for kind in (["Cyl"] if quick else ["Cyl", "Cone"]):
+            jobs.append(dict(type="integration", kind=kind, cores=[1, 2, 3, 4, 8] if quick else list(range(1, 9)),
+                             build=build, mutant=mutant))
+
+    def one(i):
+        return _run_worker(jobs[i], "thr-%d" % i, scratch)
+
+    events = []
+    with cf.ThreadPoolExecutor(max_workers=6) as ex:
+        for i, (recs, finished, err, rc) in enumerate(ex.map(one, range(len(jobs)))):
+            if not finished:
+                rep.machinery("thread-count worker %s/%s did not finish (rc=%s): %s"
+                              % (jobs[i]["type"], jobs[i]["kind"], rc, err[-600:]))
+            for r in recs:
+                if r["t"] == "field":
+                    events.append(dict(id=len(events), kind="field", okind=r["kind"], method=r["method"], S=r["S"],
+                                       P=r["P"], eqSerial=r["eqSerial"], eqPointwise=r["eqPointwise"],
+                                       checkedPointwise=r["checkedPointwise"]))
+                elif r["t"] == "integ":
+                    events.append(dict(id=len(events), kind="integ", okind=r["kind"], method=r["what"], S=r["n"],
+                                       P=r["P"], obs=r["obs"], ref=r["ref"]))
+    if not events:
+        return
+    cfg = "CONSTANTS MaxS = 100\nMaxP = 16\nTol = %d\n" % TOL
+    verdicts, results, problems = validate_trace("c20-thr", "Trace_FieldChunks", cfg, events, timeout=3000)
+    for res in results:
+        rep.add_tlc("Trace_FieldChunks", res)
+    for p in problems:
+        rep.machinery(p)
+    for e in events:
+        v = verdicts.get(e["id"])
+        rep.nontrivial(("threads", e["okind"], e["method"], e["S"], e["P"]))
+        if v and v[0] != "ok":
+            small = {k: e[k] for k in e if k not in ("obs", "ref")}
+            rep.violation("%s.%s with %d %s on %d points/entries: %s" % (
+                e["okind"], e["method"], e["P"], "cores" if e["kind"] == "field" else "integration threads", e["S"],
+                str(v[1])[:300]), dict(event=small, bad=str(v[1])[:1000], mode="threads"))
+    rep.cov["traces_validated_against_impl"] += len(events)
+    rep.cov["evaluations"] += len(events)
+    rep.cov["thread_events"] = dict(field=sum(1 for e in events if e["kind"] == "field"),
+                                    integration=sum(1 for e in events if e["kind"] == "integ"),
+                                    sizes=sizes, cores=cores)
+    rep.sample({k: v for k, v in events[0].items() if k not in ("obs", "ref")})
+
+
+def replay(path, build):
+    """re-execute a violation written by run(): the recorded call sequence (or thread event) is replayed
+    on a fresh object and judged again by the trace specification"""
+    from common import Report
+    doc = json.load(open(path))
+    r = doc["replay"]
+    rep = Report("C20", "replay", 0)
+    scratch = _scratch()
+    try:
+        if r.get("mode") == "threads":
+            e = r["event"]
+            thread_checks(rep, "quick", 0, build, scratch, None, [e["okind"]])
+        elif "deviation" in r:
+            print("NOTE the replay file records an unlisted deviation (%s); re-running the quick check" % r["deviation"])
+            return run("quick", 0, build)
+        else:
+            from common import run_tlc
+            kind = r["kind"]
+            mc = run_tlc("c20-mc", "MC_Lifecycle", tlc_cfg([kind], max(4, len(r["path"]))), workers=1,
+                         timeout=900, fast=False)
+            if not mc.ok:
+                rep.machinery("TLC on MC_Lifecycle failed: " + mc.errors())
+                return rep.finish()
+            g = parse_graphs(mc.out)[kind]
+            res, _, pr = replay_kind(kind, g, [r["path"]], build, scratch, 1, record=(r.get("mode") != "concrete"))
+            for p in pr:
+                rep.machinery(p)
+            w = set()
+            for _, steps in res:
+                for s in steps:
+                    w.update(tuple(a) for a in s["writes"])
+            events, info = [], {}
+            for pth, steps in res:
+                ev = make_event(len(events), kind, r.get("mode", "abstract"), steps, g.universe | w)
+                info[ev["id"]] = (kind, pth)
+                events.append(ev)
+            verdicts = judge(rep, "c20-rp", events, info, r.get("mode", "abstract"))
+            drift = {}
+            report_verdicts(rep, verdicts, events, info, drift)
+            for e in events:
+                print("replayed %s %s -> %s" % (kind, info[e["id"]][1], verdicts.get(e["id"], ("?",))[0]))
+        return rep.finish()
+    finally:
+        import shutil
+        shutil.rmtree(scratch, ignore_errors=True)
+
+
+if __name__ == "__main__" and len(sys.argv) >= 3 and sys.argv[1] == "--worker":
+    worker_main(sys.argv[2])
+    sys.exit(0)
